@@ -77,6 +77,9 @@ func drawList(t *rapid.T, name string, actual [][]byte, s *gen.Stream, maxLen in
 		return out
 	}
 	n := rapid.IntRange(0, maxLen).Draw(t, name+"-len")
+	if exactLen == 0 && rapid.IntRange(0, 9).Draw(t, name+"-manyEntries") == 0 {
+		n = rapid.SampledFrom([]int{8, 9, 10, 16, 33}).Draw(t, name+"-many") // long lists (a log line or a table may treat them differently)
+	}
 	if exactLen > 0 && rapid.IntRange(0, 2).Draw(t, name+"-exact") > 0 {
 		n = exactLen
 	}
